@@ -502,6 +502,11 @@ func (c *Ctx) assignHeaps(u *Unit, con *Contract, fn *ssa.Function, out map[stri
 					out[u.em.elemHeapName(sl.Elem())] = sl.Elem()
 					continue
 				}
+				if mt, ok := t.Underlying().(*types.Map); ok {
+					out[u.mapHeapName(mt)] = mt
+					out["V"+u.mapHeapName(mt)] = mt
+					continue
+				}
 			}
 			out["*"] = nil
 		default:
@@ -521,6 +526,15 @@ func (c *Ctx) findFunc(name string) *ssa.Function {
 	}
 	if len(cands) == 1 {
 		return cands[0]
+	}
+	return nil
+}
+
+func (c *Ctx) guardDecl(t types.Type, mutex string) *GuardDecl {
+	for _, g := range c.guardDecls(t) {
+		if g.Mutex == mutex {
+			return g
+		}
 	}
 	return nil
 }
